@@ -32,6 +32,55 @@ func init() {
 		},
 		Undecided: []string{"target kinds other than regular file / directory (FIFOs, devices)", "per-recipient ReadChat filter and the AnyName rule are decided under C12 / C13"},
 	}
+	siteKinds := []string{"site", "post"}
+	plans["C02"] = &Plan{
+		Items: append([]Item{
+			{Plugin: "sites", Func: "hotline.performHandshake", Kinds: siteKinds},
+			{Plugin: "sites", Func: "hotline.(*Server).handleFileTransfer", Kinds: siteKinds},
+			{Plugin: "sites", Func: "hotline.(*flattenedFileObject).ReadFrom", Kinds: siteKinds},
+			{Plugin: "sites", Func: "hotline.receiveFile", Kinds: siteKinds},
+			{Plugin: "sites", Func: "hotline.UploadFolderHandler", Kinds: siteKinds},
+			{Plugin: "sites", Func: "hotline.DownloadFolderHandler", Kinds: siteKinds},
+		}, fnItems(nil, "hotline.transactionScanner", "hotline.FieldScanner", "hotline.(*handshake).Write", "hotline.(*transfer).Write")...),
+		Decided: []string{
+			"split functions (transactionScanner, FieldScanner): no token from an incomplete prefix, the token and advance depend only on the bytes, never on atEOF (functional contract, all inputs)",
+			"every chunking copy (io.Copy / io.CopyN) in the connection functions feeds a record parser only from an in-memory reader; the connection is never read with a bare Read (call-site obligations on the real control flow)",
+			"the 12-byte handshake and the 16-byte preamble are read with io.ReadFull of exactly that size and then parsed (handshake.Write / transfer.Write functional contracts)",
+		},
+		Undecided: []string{"bufio.Scanner and io.ReadFull / binary.Read themselves (assumed library contracts)", "that replies and state are a function of the token sequence only follows from the sequential handler semantics; timing is not decided"},
+	}
+	plans["C09"] = &Plan{
+		Items: []Item{
+			{Plugin: "sites", Func: "hotline.UploadHandler", Kinds: siteKinds},
+			{Plugin: "sites", Func: "hotline.receiveFile", Kinds: siteKinds},
+		},
+		Decided: []string{
+			"UploadHandler: the partial file is opened with O_APPEND and without O_TRUNC; it is opened only when the final name does not exist; the rename to the final name is reached only on paths where receiveFile returned nil and the final name did not exist",
+			"receiveFile: returns nil only if exactly the declared data-fork size was written to the target (io.CopyN contract)",
+		},
+		Undecided: []string{"resume offset reported by HandleUploadFile equals the size of the partial file (not yet under contract)", "content equality upload = later download is the composition with C08"},
+	}
+	plans["C14"] = &Plan{
+		Items: append([]Item{
+			{Plugin: "sites", Func: "hotline.(*Server).sendTransaction", Kinds: siteKinds},
+			{Plugin: "sites", Func: "hotline.sendBanMessage", Kinds: siteKinds},
+		}, fnItems(nil, "hotline.(*ClientConn).NewReply", "hotline.(*ClientConn).NewErrReply", "hotline.NewField", "hotline.(*Field).Read", "hotline.(*MemClientMgr).Add", "hotline.(*MemClientMgr).Get")...),
+		Decided: []string{
+			"sendTransaction hands a transaction to the connection with at most one Write and never through a chunking copy (so concurrently sent transactions cannot interleave inside one another)",
+			"NewReply / NewErrReply: reply flag set, the request's ID and the requester's client ID copied, error code 1 on error replies, the error field well-formed",
+			"NewField / Field.Read: the length prefix equals the data length; registry routing: a client ID addresses the client registered under it and IDs of live clients are distinct (MemClientMgr.Add/Get)",
+		},
+		Undecided: []string{"Transaction.Read as a whole (field concatenation) is not yet under contract", "delivery order between goroutines; at most one reply per request per handler"},
+	}
+	plans["C13"] = &Plan{
+		Items: fnItems(nil, "hotline.(*UserFlags).IsSet", "hotline.(*MemClientMgr).Add", "hotline.(*MemClientMgr).Delete", "hotline.(*MemClientMgr).Get", "hotline.(*MemClientMgr).List"),
+		Decided: []string{
+			"MemClientMgr.Add: the ID assigned is not held by any registered client, for every value of the 32-bit counter (also across the 16-bit wrap); the new client is registered under it; every other entry is unchanged",
+			"Delete removes exactly the addressed entry; Get returns the client registered under the ID or nil",
+			"the registry map and the ID counter are only touched while the manager's mutex is held (ID computation and insert are one critical section)",
+		},
+		Undecided: []string{"convergence of a client-side fold of notifications with the fetched list (whole-history, delivery order)", "refuse-messages / auto-reply clauses of HandleSendInstantMsg (not yet under contract)"},
+	}
 	plans["C16"] = &Plan{
 		Items: []Item{{Plugin: "accesstables"}, {Func: "hotline.(*AccessBitmap).IsSet"}, {Func: "hotline.(*AccessBitmap).Set"}, {Func: "hotline.(*ClientConn).Authorize"}},
 		Decided: []string{
